@@ -125,7 +125,7 @@ def opcases(ctx, objdir, runtime):
     if ctx.quick:
         r = ctx.tlc("OpCases", "MC_OpCases_quick.cfg", workers=16, env={"C_PROGS": progs, "OPCASES_PART": ctx.seed % 16}, timeout=900)
     else:
-        r = ctx.tlc("OpCases", "MC_OpCases_thorough.cfg", workers=16, env={"C_PROGS": progs, "OPCASES_PART": 0}, timeout=3000, heap="6g")
+        r = ctx.tlc("OpCases", "MC_OpCases_thorough.cfg", workers=16, env={"C_PROGS": progs, "OPCASES_PART": 0}, timeout=7200, heap="6g")
     if not r.ok:
         raise vlib.MachineryError("OpCases.tla failed:\n" + r.out[-3000:])
     seen, cases = set(), []
